@@ -109,9 +109,10 @@ class Frozen:
     are below alloc-at-entry (closedness).  Ill-typed access paths (`ref` of a non-reference, a dead list cell) denote
     values no real state determines, so they may be chosen to satisfy the same equations."""
 
-    def __init__(self, entry, base_refs):
+    def __init__(self, entry, base_refs, freeze=True):
         self.entry = entry
         self.base = set(base_refs)
+        self.freeze = freeze            # False: the function has a frame; only the store-skipping below applies
         self.ids = {a.get_id(): k for k, a in entry.items() if k in ("lelem", "dkeys", "dval")}     # entry keeps them alive
         self.memo = {}
 
@@ -167,7 +168,14 @@ class Heap:
 
     def _get(self, kind, ref):
         if self.frozen is not None and not kind.startswith("fld:") and self.frozen.is_old(ref):
-            return z3.Select(self.frozen.entry[kind], ref)
+            if self.frozen.freeze:
+                return z3.Select(self.frozen.entry[kind], ref)
+            # an object that existed at entry lies below every allocation made since: stores at fresh keys (allocation
+            # counter + offset) cannot have hit it and are skipped when reading
+            arr = self.arr[kind]
+            while z3.is_store(arr) and fresh_key(arr.arg(1)) is not None:
+                arr = arr.arg(0)
+            return z3.Select(arr, ref)
         k = fresh_key(ref)
         if k is not None and (kind, k) in self.known:
             return self.known[(kind, k)]
